@@ -18,6 +18,38 @@ func genC11(r *Rand) *VariantCase {
 			p.Stmts = append(p.Stmts[:n-1], *u, p.Stmts[n-1])
 		}
 	}
+	// operand positions the shared generator does not reach: an EQU as the scale of an index register (directly and through a
+	// second EQU), as a port, an interrupt number and a shift count.  Byte comparison only, so plain text statements do.
+	if r.Chance(1, 2) {
+		sc := int64(Pick(r, []int{2, 4, 8}))
+		half := sc / 2
+		scN, sc2N, smallN := fmt.Sprintf("K%d", len(defs)), fmt.Sprintf("K%d", len(defs)+1), fmt.Sprintf("K%d", len(defs)+2)
+		small := int64(r.Range(4, 31))
+		extra := []equDef{{Name: scN, E: &Expr{Val: half}, Val: half},
+			{Name: sc2N, E: &Expr{Op: "*", L: &Expr{Name: scN}, R: &Expr{Val: 2}}, Val: sc},
+			{Name: smallN, E: &Expr{Val: small}, Val: small}}
+		var eq, use []PStmt
+		for _, d := range extra {
+			eq = append(eq, PStmt{K: "equ", Label: d.Name, Text: d.E.Render(0), Tag: "EQU"})
+		}
+		use = append(use, PStmt{K: "raw", Text: fmt.Sprintf("\tMOV EAX,[EBX+ECX*%s]", sc2N)}, PStmt{K: "raw", Text: fmt.Sprintf("\tMOV [ESI+EDI*%s+%s],EDX", scN, smallN)},
+			PStmt{K: "raw", Text: fmt.Sprintf("\tMOV ECX,[EDX*%s+0x100]", sc2N)}, PStmt{K: "raw", Text: fmt.Sprintf("\tIN AL,%s", smallN)}, PStmt{K: "raw", Text: fmt.Sprintf("\tOUT %s+1,AL", smallN)},
+			PStmt{K: "raw", Text: fmt.Sprintf("\tINT %s", smallN)}, PStmt{K: "raw", Text: fmt.Sprintf("\tSHL BX,%s", smallN)}, PStmt{K: "raw", Text: fmt.Sprintf("\tADD BYTE [%s+%s],%s", map[int]string{16: "BX", 32: "EBX"}[mode], smallN, scN)})
+		Shuffle(r, use)
+		use = use[:r.Range(2, len(use))]
+		// the definitions go in front (after ORG / BITS), the uses before the final label
+		k := 0
+		for k < len(p.Stmts) && (p.Stmts[k].K == "org" || p.Stmts[k].K == "bits") {
+			k++
+		}
+		st := append([]PStmt{}, p.Stmts[:k]...)
+		st = append(st, eq...)
+		st = append(st, p.Stmts[k:len(p.Stmts)-1]...)
+		st = append(st, use...)
+		st = append(st, p.Stmts[len(p.Stmts)-1])
+		p.Stmts = st
+		defs = append(defs, extra...)
+	}
 	src := p.Source()
 	// inlined variant: every name replaced by its parenthesised defining expression, EQU lines removed
 	dm := map[string]*Expr{}
